@@ -11,6 +11,18 @@ PT = QP + ".QuicPacketType"
 ORDERS = {2: [(0, 1), (1, 0)], 3: [(0, 1, 2), (0, 2, 1), (1, 0, 2), (1, 2, 0), (2, 0, 1), (2, 1, 0)]}
 
 
+def full_qsession(c, **overrides):
+    """a QuicSession with EVERY attribute the real constructor sets (so that code reading or writing any of them is executed, not
+    answered with a spurious AttributeError), then put into the state the contract quantifies over"""
+    pkt = c.obj("tlexport.packet.Packet", ipv6_packet=False, ip_src=c.bytes("q_ip_src", length=4), ip_dst=c.bytes("q_ip_dst", length=4), sport=50000, dport=443,
+                ethernet_src=c.bytes("q_eth_src", length=6), ethernet_dst=c.bytes("q_eth_dst", length=6), tls_data=const(b"\xc0"), timestamp=1.0)
+    r = c.new(QS, pkt, [443], [], {}, True)
+    assert r.exc is None, r
+    for k, v in overrides.items():
+        c.set(r.value, k, v)
+    return r.value
+
+
 @harness("C02", "quic.crypto_reassembly", functions=[QT + ".update_session"],
          cases=[(srv, n, order) for srv in (True, False) for n in (2, 3) for order in ORDERS[n]], timeout=20000)
 def h_crypto(c, isserver, n, order):
@@ -315,8 +327,8 @@ def h_handle_packet(c, has_initial):
     version = c.enum(QV, c.choice("datagram_version", ["V1", "V2", "UNKNOWN"]))
     known = c.enum(QV, c.choice("session_version", ["V1", "UNKNOWN"]))
     pkt = c.obj("tlexport.packet.Packet", tls_data=c.bytes("datagram", min_len=1))
-    s = c.obj(QS, quic_version=known, decryptors=({"Initial": c.opaque("initial_decryptor")} if has_initial else {}), keys={"k": c.opaque("key")},
-              tls_session=c.record("QuicTlsSession", ciphersuite=None), packet_buffer_quic=[])
+    s = full_qsession(c, quic_version=known, decryptors=({"Initial": c.opaque("initial_decryptor")} if has_initial else {}), keys={"k": c.opaque("key")},
+                      tls_session=c.record("QuicTlsSession", ciphersuite=None), packet_buffer_quic=[])
     events, initial = [], []
 
     def scramble(tag):
